@@ -485,6 +485,20 @@ func genC17(c *Ctx) {
 	// `teinewgame` of another size: the new game's first line is the old game's last line plus moves
 	genTEIExtend(c, c.Scale(200, 12000))
 	genTEIZeroReserve(c)
+	// the engine with its built-in configuration (no ConfigFactory), several games of different sizes in one stream
+	if c.Shard < 6 {
+		win := map[int]string{
+			3: "1,1,x/x3/2,2,x 1 3", 4: "1,1,1,x/x4/x4/2,2,2,x 1 4", 5: "1,1,1,1,x/x5/x5/x5/2,2,2,2,x 1 5",
+			6: "1,1,1,1,1,x/x6/x6/x6/x6/2,2,2,2,2,x 1 6",
+		}
+		seqs := [][]int{{5}, {5, 5}, {5, 6}, {6, 4, 5}, {3, 4, 3}, {4, 6}}
+		var cmds []string
+		for _, sz := range seqs[c.Shard] {
+			cmds = append(cmds, "teinewgame "+strconv.Itoa(sz), "position tps "+win[sz], "go")
+		}
+		cmds = append(cmds, "isready")
+		c.Count("tei.default-config." + clip(c.Emit("teidef "+hexOrDash(joinStream(cmds, true))), 16))
+	}
 	// pipelined controllers: the same kind of streams handed over in chunks that ignore line boundaries (1 byte, a few
 	// bytes, everything at once), among them streams whose LAST command is fatal after several answered `go`s - what was
 	// written for the earlier commands must be there when Run returns
